@@ -186,18 +186,38 @@ class Policy:
         # finished -- one pre-emption, placed exactly, instead of p^k luck
         self.breakpoint = breakpoint
         self.occurrence = occurrence
-        self.seen = 0
+        # general form: several (site, occurrence) breakpoints, each parks the
+        # first thread that reaches it; parked threads are released (fifo or
+        # lifo) only when no unparked thread is left
+        self.breakpoints = []
+        if breakpoint is not None:
+            self.breakpoints.append([breakpoint, occurrence, 0, False])
         self.parked = None
+        self.parked_list = []
+        self.release = "fifo"
 
     def decide(self, point, tid, tier, runnable, code=None, where=None):
         if self.kind == "breakpoint":
-            if self.parked is None and self.breakpoint == (code, where):
-                self.seen += 1
-                if self.seen == self.occurrence:
-                    others = [t for t in runnable if t != tid]
-                    if others:
-                        self.parked = tid
-                        return self.rng.choice(sorted(others))
+            for bp in self.breakpoints:
+                if bp[3] or bp[0] != (code, where) or tid in self.parked_list:
+                    continue
+                bp[2] += 1
+                if bp[2] != bp[1]:
+                    continue
+                others = [t for t in runnable if t != tid]
+                free = [t for t in others if t not in self.parked_list]
+                if free:
+                    bp[3] = True
+                    self.parked_list.append(tid)
+                    self.parked = tid
+                    return self.rng.choice(sorted(free))
+                if self.parked_list:
+                    # everybody else is parked: swap with one of them
+                    bp[3] = True
+                    to = self.parked_list.pop(0 if self.release == "fifo" else -1)
+                    self.parked_list.append(tid)
+                    self.parked = tid
+                    return to
             return None
         if self.kind == "recorded":
             to = self.recorded.get(point)
@@ -229,8 +249,15 @@ class Policy:
         if self.kind == "sequential":
             return min(runnable)
         if self.kind == "breakpoint":
-            others = [t for t in runnable if t != self.parked]
-            return min(others) if others else min(runnable)
+            free = [t for t in runnable if t not in self.parked_list]
+            if free:
+                return min(free)
+            live = [t for t in self.parked_list if t in runnable]
+            if not live:
+                return min(runnable) if runnable else None
+            to = live[0] if self.release == "fifo" else live[-1]
+            self.parked_list.remove(to)
+            return to
         return self.rng.choice(sorted(runnable))
 
 
